@@ -248,18 +248,21 @@ CHECKS = {
         technique="Coq refinement proof (algorithmic model = brute-force specification; monotonicity of calendar truncation) + differential execution on harness-rendered trees evaluated by vm_compute",
         design="5/C01"),
     "C17": dict(
-        text=("coq/gen/oem.v (mathcomp matrix terms) is REGENERATED from typhon/retrieval/oem on every run; 13 theorems, closed under the "
-              "global context, for every ordered field, every shape and every SPD pair S_a, S_y (invertibility derived from SPD, "
-              "not assumed): error_covariance_matrix is the two-sided inverse of K^T S_y^-1 K + S_a^-1, is SPD and <= S_a in the "
-              "Loewner order (Woodbury form); the gain equals S K^T S_y^-1 and the measurement-space form S_a K^T (K S_a K^T + "
-              "S_y)^-1; A = G K = I - S S_a^-1; smoothing_error and retrieval_noise are the stated linear maps. PARTIAL (named): "
-              "eigenvalues of A are proved in [0,1) only for eigenvalues lying in the field (no spectral theorem installed; the "
-              "complex spectrum is swept numerically), and the two limits (vanishing prior / noise) are proved as bounds linear in "
-              "the scaling factor without the final passage to the limit. Tie: translation + exact-rational evaluation of the same "
-              "source expressions inside Coq (inverse certified per call) against the running code + a numeric law sweep with "
-              "componentwise conditioning-scaled tolerances."),
-        note=COMMON_NOTE + " Translator trusted (cross-checked by the exact evaluation); numpy/scipy matmul/inv up to rounding bridged case by case by first-order error bounds; the Q-matrix model is a second reading of the source, not proved equal to the mathcomp terms.",
-        technique="Coq/mathcomp proof over an arbitrary ordered field on matrix terms translated from the source on every run + exact-rational vm_compute evaluation + numeric law sweep",
+        text=("coq/gen/oem.v (mathcomp matrix terms) is REGENERATED from typhon/retrieval/oem on every run; 23 theorems, closed under the "
+              "global context (coqchk: no axioms), for every ordered field, every shape and every SPD pair S_a, S_y (invertibility "
+              "derived from SPD, not assumed): error_covariance_matrix is the two-sided inverse of K^T S_y^-1 K + S_a^-1, is SPD and "
+              "<= S_a in the Loewner order (Woodbury form); the gain equals S K^T S_y^-1 and the measurement-space form S_a K^T (K S_a "
+              "K^T + S_y)^-1; A = G K = I - S S_a^-1; smoothing_error and retrieval_noise are the stated linear maps. Spectrum: A is "
+              "self-adjoint for x^T S_a^-1 y with Rayleigh quotient in [0,1), has no complex eigenpairs, no Jordan blocks, orthogonal "
+              "eigenvectors and eigenvalues in [0,1) over every ordered field; over every real closed field every eigenvalue in R[i] "
+              "is real in [0,1) and the characteristic polynomial splits into n+1 factors with roots in [0,1) (an explicit eigenbasis "
+              "is not constructed). Limits: epsilon-delta, uniformly in the entries, S -> 0 and A -> 0 for vanishing prior variance, "
+              "S -> 0 and A -> I for vanishing noise with K of full column rank, with explicit O(d), O(e) bounds per entry. No theorem "
+              "is partial. Tie: translation + exact-rational evaluation of the same source expressions inside Coq (inverse certified "
+              "per call) against the running code + a 21-law numeric sweep with componentwise conditioning-scaled tolerances, incl. "
+              "histories with arrays modified in place."),
+        note=COMMON_NOTE + " Translator trusted (cross-checked by the exact evaluation); numpy/scipy matmul/inv up to rounding bridged case by case by first-order error bounds; the Q-matrix model is a second reading of the source, not proved equal to the mathcomp terms; the whole-spectrum theorems need a real closed field (mathcomp real_closed).",
+        technique="Coq/mathcomp proof over an arbitrary ordered field on matrix terms translated from the source on every run (self-adjointness argument for the spectrum; real_closed for the complex spectrum) + exact-rational vm_compute evaluation + numeric law sweep",
         design="5/C17"),
     "C04": dict(
         text=("18 theorems (closed under the global context) about the model of Collocator.collocate (common time window, sort, "
